@@ -915,6 +915,9 @@ class Emitter:
             vb, ib = self.iter_parts(args[1])
             vd, idd = self.iter_parts(args[2])
             return 'vp_copy_range(&(%s), %s, %s, &(%s), %s)' % (va, ia, ib, vd, idd)
+        if name == 'getline' and self.opts.get('streams') and len(args) == 2:
+            self.fire('G13')
+            return '(*vp_is_getline(&(%s), &(%s)))' % (self.emit(args[0]), self.emit(args[1]))
         if name in ('stable_sort', 'iota', 'transform', 'getline'):
             raise ExtractError('std::%s needs a recipe-level handler' % name)
         if name == 'accumulate' and len(args) == 3 and self.tm.info(qtype(args[0]))['kind'] == 'iter':
@@ -1111,9 +1114,15 @@ class Emitter:
                 raise ExtractError('stream manipulator %s' % nm)
             if r['kind'] == 'CallExpr' and strip_all(kids(r)[0]).get('referencedDecl', {}).get('name') == 'setprecision':
                 return '(*vp_os_precision(&(%s), %s))' % (lhs, self.emit(kids(r)[1]))
+            if r['kind'] == 'CharacterLiteral' and r.get('value') == 10 and self.opts.get('stream_lines'):
+                return '(*vp_os_nl(&(%s)))' % lhs
+            if r['kind'] == 'StringLiteral' and self.opts.get('stream_lines') and r.get('value', '').startswith('"#'):
+                return '(*vp_os_put_hash(&(%s)))' % lhs
             if r['kind'] in ('StringLiteral', 'CharacterLiteral'):
                 return '(*vp_os_sep(&(%s)))' % lhs
             ri = self.tm.info(rq)
+            if ri['ctype'] == 'vp_string':
+                return '(*vp_os_put_str(&(%s), &(%s)))' % (lhs, self.emit(r))
             if ri['kind'] == 'scalar' and ri['ctype'] == 'T':
                 return '(*vp_os_put_T(&(%s), %s))' % (lhs, self.emit(args[1]))
             if ri['kind'] == 'scalar' and ri['ctype'] in ('size_t', 'int'):
@@ -1126,6 +1135,11 @@ class Emitter:
         if self.opts.get('streams') and op == 'operator>>' and bti['ctype'] in ('vp_istream',):
             self.fire('G13')
             lhs = self.emit(args[0])
+            r = strip_all(args[1])
+            if r['kind'] == 'DeclRefExpr' and r.get('referencedDecl', {}).get('kind') == 'FunctionDecl':
+                if r['referencedDecl']['name'] == 'ws':
+                    return '(*vp_is_ws(&(%s)))' % lhs
+                raise ExtractError('stream manipulator %s' % r['referencedDecl']['name'])
             ri = self.tm.info(qtype(args[1]))
             if ri['kind'] == 'scalar' and ri['ctype'] == 'T':
                 return '(*vp_is_get_T(&(%s), &(%s)))' % (lhs, self.emit(args[1]))
